@@ -213,7 +213,7 @@ PeerClosedUp ==
 
 \* end of an observed run: who holds the money
 EndRun(aSent, cPaid, abOpen) ==
-  /\ Flag(upMode = "honest" => (abOpen /\ ~(cPaid /\ ~aSent) /\ up # "held"), "BoundedLoss")
+  /\ Flag(upMode = "honest" => (abOpen /\ ~(cPaid /\ ~aSent) /\ up \notin {"offered", "held"}), "BoundedLoss")
   /\ UNCHANGED <<h, role, upMode, dnMode, eu, ed, d, dl, up, upH, pre, preLate, dn, dnH, xH, cD, cDb, cDc, toB,
                  cU, cUb, cUc, suB, suC, lost>>
 
@@ -272,11 +272,14 @@ WinInboundRace == ~lost /\ (NeedsChain => h < eu)
 \* after expiry by its own clock and may be up to LGP blocks ahead of us: the resolution is on the
 \* wire no later than at height eu - LGP, which is where the code's last resort -- the early fail-back
 \* of an HTLC whose downstream close is still unresolved, MayFailUpEarly -- acts), and we never close
-\* the upstream channel ourselves when that peer is responsive
+\* the upstream channel ourselves when that peer is responsive.  The same deadline stands for an HTLC
+\* B has taken from A and not yet passed on (it waits in B's holding cell because C owes an answer):
+\* passed on in time, or given back -- whatever else the blocks in between make B do for that channel
+\* (a splice or a fresh channel reaching its depth, announcement signatures)
 BoundedLoss ==
   /\ viol # "BoundedLoss"
   /\ ~(up = "failed" /\ dn \in {"fulfilled", "claimed"})
-  /\ (role = "fwd" /\ upMode = "honest" /\ up = "held") => h + LGP <= eu
+  /\ (role = "fwd" /\ upMode = "honest" /\ up \in {"offered", "held"}) => h + LGP <= eu
   /\ (upMode = "honest") => cU = "open"
 
 FailBackAfterBurial == viol # "FailBackAfterBurial"
